@@ -540,12 +540,15 @@ def text_of(lines) -> str:
   return NL.join("".join(ch for ch, _ in ln) for ln in lines)
 
 
-def is_blank(text: str) -> bool:
-  return all(c in BLANK_CHARS for c in text)
+def is_blank(text: str, wide: bool = False) -> bool:
+  """blank = nothing but TTML white space; `wide`: the other reading of `blank` in the statement -- nothing but characters that
+  Unicode classifies as white space (NBSP, IDEOGRAPHIC SPACE, LINE SEPARATOR, ...), which are ordinary characters for TTML
+  but show nothing either"""
+  return all(c in BLANK_CHARS or (wide and c.isspace()) for c in text)
 
 
-def drop_blank_lines(lines):
-  return [ln for ln in lines if not all(ch in BLANK_CHARS for ch, _ in ln)]
+def drop_blank_lines(lines, wide: bool = False):
+  return [ln for ln in lines if not all(ch in BLANK_CHARS or (wide and ch.isspace()) for ch, _ in ln)]
 
 
 def reference_intervals(doc, ruby="base", snapshot=None, change_times=None):
@@ -571,7 +574,7 @@ def interval_lines(iv):
   return lines
 
 
-def expected_cues(doc, config=None, ruby="base", rounding="even", blank_lines="keep", intervals=None):
+def expected_cues(doc, config=None, ruby="base", rounding="even", blank_lines="keep", intervals=None, wide_blank=False):
   """The cues the statement of C06 requires -> [{"begin", "end" (ms), "text", "unbounded", "t" (exact begin), "lines", "region"}]
   or None (document outside the statement).
 
@@ -592,9 +595,9 @@ def expected_cues(doc, config=None, ruby="base", rounding="even", blank_lines="k
     groups = [(rid, ls) for rid, ls in iv["regions"]] if per_region else [(None, interval_lines(iv))]
     for rid, ls in groups:
       if blank_lines == "drop":
-        ls = drop_blank_lines(ls)
+        ls = drop_blank_lines(ls, wide_blank)
       txt = text_of(ls)
-      if is_blank(txt):
+      if is_blank(txt, wide_blank):
         continue
       out.append({"begin": b, "end": e, "text": txt, "unbounded": iv["end"] is None, "t": iv["begin"], "lines": ls, "region": rid,
                   "bodies": iv.get("bodies", 1)})
